@@ -51,8 +51,11 @@ def run_job(args):
     def witness(ins, ufs):
         r = run_concrete(fn, ins, ufs, cfg)
         ok = not r["failed"] and not r["assume_failed"] and not r["missing"]
-        return {"ok": ok, "failed": r["failed"], "missing": r["missing"][:5], "assume_failed": r["assume_failed"],
-                "exception": r["exception"]}
+        out = {"ok": ok, "failed": r["failed"], "missing": r["missing"][:5], "assume_failed": r["assume_failed"],
+               "exception": r["exception"]}
+        if r["failed"] and not r["assume_failed"] and not r["missing"]:
+            out["inputs"], out["uf"] = ins, ufs       # a real failing execution: kept for the replay file
+        return out
     t0 = time.time()
     try:
         eng.explore(fn, max_paths=opts.get("max_paths", 500000), max_seconds=opts.get("max_seconds", 600),
@@ -195,6 +198,20 @@ def main(argv=None):
         for w in r["witnesses"]:
             if w["ok"]:
                 witnesses_ok += 1
+            elif w.get("inputs") is not None:
+                # The symbolic run proved the path, but the SAME inputs make an assertion of the property fail on the real,
+                # unshimmed classes (a stub hid the behaviour - e.g. code reached only through the real file system).  A failing
+                # concrete execution of the real code is a violation in its own right; it is reported with its replay file.
+                witnesses_bad += 1
+                v = {"label": w["failed"][0], "inputs": w["inputs"], "uf": w["uf"], "symbolic_label": "(proved symbolically; fails on the real classes)"}
+                k = match_known(known, prop, r["job"]["h"], r["job"]["cfg"], v["label"])
+                if k is not None:
+                    known_hit.setdefault(k["id"], k)
+                elif sum(1 for x in violations_new if x["label"] == v["label"]) >= 3:
+                    violations_new.append({"label": v["label"], "job": r["job"], "replay": None, "inputs": v["inputs"]})
+                else:
+                    path = replay_file(prop, modname, r["job"]["h"], r["job"]["cfg"], v, f"w{len(violations_new)}")
+                    violations_new.append({"label": v["label"], "job": r["job"], "replay": path, "py312": "not run", "inputs": v["inputs"]})
             else:
                 witnesses_bad += 1
                 inconclusive.append(f"{jn}: witness of a proved path does not replay on the real classes: {w}")
